@@ -123,6 +123,12 @@ func (l *leanFile) pf(format string, a ...any) { fmt.Fprintf(&l.sb, format, a...
 
 var outFiles []*leanFile
 
+// generators are registered from init() functions (one file per property
+// group: facts_<group>.go), so that groups can be developed independently.
+var generators []func()
+
+func registerGen(g func()) { generators = append(generators, g) }
+
 func newLean(name string) *leanFile {
 	l := &leanFile{name: name}
 	l.pf("-- GENERATED from %s by /verif/extract (gvx) on every run: do not edit\n", repoRoot)
@@ -138,8 +144,9 @@ func main() {
 		fatal("need -out")
 	}
 	repoRoot = *repo
-	genConsts()
-	genRuleLists()
+	for _, g := range generators {
+		g()
+	}
 	genGoLite()
 	names := []string{}
 	for _, l := range outFiles {
